@@ -176,6 +176,11 @@ class _Loader(importlib.abc.Loader):
     def exec_module(self, module):
         module.__dict__.update(HELPERS)
         exec(lifted_code(self.path), module.__dict__)
+        vs = HELPERS.get('__vspecial__')
+        if vs is not None:
+            sp = module.__dict__.get('special')
+            if getattr(sp, '__name__', '') == 'scipy.special':
+                module.__dict__['special'] = vs
 
 
 class _Finder(importlib.abc.MetaPathFinder):
